@@ -617,6 +617,7 @@ hwloc__xml_import_userdata(hwloc_topology_t topology,
 	  free(decoded_buffer);
 	  return -1;
 	}
+	decoded_buffer[length] = '\0'; /* the import callback is promised a null byte after the data */
 	topology->userdata_import_cb(topology, obj, name, decoded_buffer, length);
 	free(decoded_buffer);
       }
